@@ -31,6 +31,8 @@ Inductive libkind :=
   | KExprFold
   (* FlipJumpAssemblerException *)
   | KOpEval | KWflipValue | KBoundsUnaligned | KNoSpace | KAddSegment | KNoFirstOp | KFirstNotSegment
+  (* FlipJumpWriteFjmException escaping from Writer.add_data (not wrapped by add_segment_to_fjm) *)
+  | KWriterWordRange
   (* outside this model: macro call / rep in the program *)
   | KNotPrimitive.
 Inductive rawkind := RStructError.
@@ -106,9 +108,9 @@ Variable strict_range : bool.   (* true = the code as it is since the fix of fin
                                    word_address + bit_length(value) - 1 and return_address; all raise the "Not enough space
                                    ... in op" FlipJumpAssemblerException (KWflipValue).  false = the code before the fix
                                    (kept to state what the fix changed: Properties/C02.v, C02_F8_regression_witness).
-                                   The checks commit 3bd0fc0 added to Writer.add_data / add_segment (word range, even data
-                                   length, 64-bit fields, data range) cannot fire after validate_addresses and these asserts;
-                                   `packable` below stands for the word-range one. *)
+                                   Of the checks commit 3bd0fc0 added to the Writer, the word-range check of add_data IS
+                                   reachable (KWriterWordRange in add_segment_to_fjm); the others (even data length, 64-bit
+                                   fields, data range) cannot fire after validate_addresses.  `packable` is then always true. *)
 Definition wd : Z := wz ww.
 Definition dwd : Z := 2 * wd.
 
@@ -265,6 +267,9 @@ Definition add_segment_to_fjm (wr : wstate) (first last : Z) (fj wf : list Z) : 
     if first =? last then Ok (wr, false)
     else
       let data := fj ++ wf in
+      (* Writer.add_data (since 3bd0fc0): every word must fit [0, 2^w).  Reachable: a chain-link word holding a
+         wflip-area address >= 2^w sits in fj_words and is emitted by a `reserve` before the segment end is validated *)
+      if negb (forallb in_memory data) then LibError KWriterWordRange else
       let dstart := Z.of_nat (List.length (w_data wr)) in
       let wr1 := mkw (w_segs wr) (w_data wr ++ data) in
       match writer_add_segment wr1 (first / wd) ((last - first) / wd) dstart (Z.of_nat (List.length data)) with
@@ -517,6 +522,7 @@ Definition libkind_code (k : libkind) : N :=
   | KSegmentUnaligned => 6 | KReserveEval => 7 | KReserveUnaligned => 8 | KExprFold => 9 | KOpEval => 10
   | KWflipValue => 11 | KBoundsUnaligned => 12 | KNoSpace => 13 | KAddSegment => 14 | KNoFirstOp => 15
   | KFirstNotSegment => 16 | KNotPrimitive => 17 | KPadTooHigh => 18
+  | KWriterWordRange => 19
   end%N.
 
 Fixpoint npairs_eqb (a b : list (N * N)) : bool :=
